@@ -239,9 +239,10 @@ def gen_powf(rng, tier, b, p):
         ys = -ys
     # keep |y ln x| moderate (quick) / below the overflow limit
     if s > 0 and ys:
-        lx = abs(math.log2(s) + e * math.log2(b)) or 2.0 ** -(4 * p + 8)
-        lim = 2.0 ** 24 if tier == "quick" else 2.0 ** 40
-        while abs(ys) * float(b) ** ye * lx > lim:
+        lx = abs(math.log2(s) + e * math.log2(b))
+        llx = math.log2(lx) if lx > 0.0 else -(4.0 * p + 8)
+        lim = 24 if tier == "quick" else 40
+        while math.log2(abs(ys)) + ye * math.log2(b) + llx > lim:
             ye -= 3
     if rng.chance(1, 40):
         s = -s
